@@ -88,6 +88,20 @@ func Run(outDir string, seed int64, tier string) error {
 			}
 			coq, dk, ok := classify(o)
 			in := map[string]interface{}{"file": o.Path, "umask": fmt.Sprintf("%04o", r.umask), "mode": fmt.Sprintf("%04o", o.Mode), "preexisting_mode": r.prior, "holds_secret_bytes": o.HasSecret}
+			if strings.Contains(o.Path, "/linked") || strings.HasPrefix(o.Path, "vault") {
+				// the symbolic-link scenario (second beacon, secret files are links into vault/): monitor only,
+				// the pre-existing-mode parameter of the K cases does not apply to these files
+				rep.Count("modes/symlink-scenario")
+				if !o.Dir && o.HasSecret {
+					rep.Count("modes/symlink-scenario-secret-file")
+					if o.Mode&0o077 != 0 {
+						in["how"] = "drand_id.private / dist_key.private of beacon 'linked' are symbolic links into vault/ (one dangling, one to an existing 0644 file); SaveKeyPair / SaveShare wrote through them"
+						rep.Fail("C15-secret-file-group-or-other-readable",
+							fmt.Sprintf("%s (written through a symbolic link) holds secret bytes and has mode %04o under umask %04o", o.Path, o.Mode, r.umask), in)
+					}
+				}
+				continue
+			}
 			if cliRun {
 				in["created_by"] = "operator commands on a folder that did not exist: drand generate-keypair; start-up self-sign migration; drand dkg nuke (creates dkg.db when there is none); then the daemon's NewDKGStore + SaveFinished wrote the share into it"
 			}
